@@ -20,6 +20,23 @@ monitors on the real CustomSD / PowerLawSD / CustomCorrelations objects:
   and (minus) the weighted quadrature of the own Matsubara correlation;
 * CustomCorrelations (dblquad) against analytic cell integrals of sums of
   damped exponentials and of finite-mode cos/sin correlations.
+
+Three open findings are classified by *measured* identities (never by
+parameters alone), everything else keeps its "<what>-deviation" mechanism:
+  triangle-offset-time1          lib == eta(t1+dt)-eta(t1) (trapezoid) within
+                                 the bound, for CustomSD upper-triangles with
+                                 time_1 != 0;
+  subohmic-thermal-cancellation  zeta<1, T>0, quantity built from
+                                 eta_function; a replica of the pinned
+                                 integrand (same scipy.quad calls) reproduces
+                                 the library value, the cancellation-free
+                                 integrand (same quad calls) reproduces the
+                                 reference, and |lib-ref| <= loose bound;
+  inf-tail-quad-glitch           cutoff_type != 'hard'; the replica (b=inf)
+                                 reproduces the library value, the same
+                                 integrand with a finite-piece tail reproduces
+                                 the reference.
+(vp/mon/quadtwin.py holds the replica / repaired recomputations.)
 """
 import math
 import os
@@ -41,8 +58,10 @@ CASE_TIMEOUT = 200
 # *requests* max(epsabs_default, eps*|I|) per quadrature.  A cell is a linear
 # combination sum_i c_i eta(t_i); its requested tolerance is therefore
 #   eps * sum_i |c_i| |eta(t_i)|   +   EPSABS * nquad * sum_i |c_i|
-# and the bound is a frozen multiple of that (calibrated, see RESULTS in the
-# final report of the build round; >= 10x headroom over 4 seeds).
+# and the bound is C_REL*(first part) + C_ABS*(second part).  Calibration on
+# the unchanged tree (quick tier, seeds 0-3, + thorough seed 0): outside the
+# regime of the two open accuracy findings the worst ratio deviation/bound is
+# 0.04 (>= 25x headroom); C_REL = 100 as frozen in DESIGN section C12.
 EPSABS = 1.49e-8            # scipy's default absolute tolerance
 DEFAULT_EPSREL = 2.0 ** -26  # oqupy.config.INTEGRATE_EPSREL
 C_REL = 100.0
@@ -66,7 +85,9 @@ RULE = ("seeded random spectral densities: alpha in (0,4], zeta in [0.1,4], "
         "steps, correlation() at 5 time differences of both signs, Matsubara "
         "values/cells at 6 imaginary times in [0,beta]; plus "
         "CustomCorrelations cases (1-3 damped exponentials, 1-3 finite "
-        "modes). A case is non-trivial iff at least 4 of its judged cells "
+        "modes; all 12 cell classes; cells straddling the diagonal with a "
+        "kinked callable only at default/1e-6 epsrel, counted in "
+        "cc:kink-straddle). A case is non-trivial iff at least 4 of its judged cells "
         "have |reference| >= 100*bound (a 1 % error would be seen) - "
         "measured; distinct = distinct (variant, cutoff, T class, zeta class, "
         "epsrel class, cell classes) signature")
@@ -80,6 +101,14 @@ ASSUMPTIONS = [
     "custom j-functions are finite for w -> infinity and behave like "
     "w^zeta at 0; custom correlation callables are C(-t) = C(t)^*",
     "Matsubara times restricted to [0, beta]",
+    "CustomCorrelations cells that straddle the diagonal while the callable "
+    "has a kink at tau = 0 (a e^{-(g+iw)|tau|}): scipy.dblquad reaches only "
+    "~7e-6 relative whatever epsrel is requested (and warns); those cells "
+    "(cell cc:kink-straddle) are judged with the extra term 1e-4*max|C|*area; "
+    "smooth callables and all non-straddling cells use the normal bound",
+    "known-finding tags are evidence based: the harness recomputes the "
+    "quantity with a replica of the pinned integrand and with the repaired "
+    "integrand / tail (vp/mon/quadtwin.py); no tag without replica == library",
 ]
 
 T_CLASSES = ("zero", "cross", "low", "mid", "high", "zero", "cross-below",
@@ -107,7 +136,7 @@ def required_cells(tier):
         "matsubara_real": 20, "matsubara_vs_ref": 20, "matsubara_cells": 10,
         "matsubara_symmetry": 5, "matsubara:guard-active": 3,
         "cc_cells_vs_analytic": 20, "cc:exp": 2, "cc:modes": 2,
-        "cc:tri:offset": 2, "cc:straddle": 2,
+        "cc:tri:offset": 2, "cc:straddle": 2, "cc:kink-straddle": 2,
     }
     for tc in set(T_CLASSES):
         req["T:" + tc] = 2
@@ -121,6 +150,46 @@ def cases(tier, seed):
     out += [{"kind": "cc", "seed": seed, "idx": i, "tier": tier}
             for i in range(n_cc)]
     return out
+
+
+def extra_coverage(results, tier):
+    """Evidence about the known-finding classifiers: how often each tag was
+    given, how close the tagged deviations came to the loose bound, how well
+    the replica reproduced the library, and one fully measured example."""
+    out = {}
+    for res in results:
+        for v in (res or {}).get("violations", []):
+            m = v.get("mechanism")
+            if m not in KNOWN_TAGS:
+                continue
+            d = v.get("detail", {})
+            o = out.setdefault(m, {"tagged_comparisons": 0,
+                                   "worst_fraction_of_loose_bound": 0.0,
+                                   "worst_lib_minus_replica_over_bound": 0.0,
+                                   "worst_deviation_over_bound": 0.0,
+                                   "example": None})
+            o["tagged_comparisons"] += 1
+            try:
+                bound = float(d.get("bound") or 0.0)
+                err = float(d.get("err") or 0.0)
+                if bound > 0:
+                    o["worst_deviation_over_bound"] = max(
+                        o["worst_deviation_over_bound"], err / bound)
+                    if "lib_minus_replica" in d:
+                        o["worst_lib_minus_replica_over_bound"] = max(
+                            o["worst_lib_minus_replica_over_bound"],
+                            float(d["lib_minus_replica"]) / bound)
+                if d.get("loose_bound") and m == \
+                        "subohmic-thermal-cancellation":
+                    o["worst_fraction_of_loose_bound"] = max(
+                        o["worst_fraction_of_loose_bound"],
+                        err / float(d["loose_bound"]))
+            except (TypeError, ValueError):
+                pass
+            if o["example"] is None:
+                o["example"] = {"what": v.get("what"), "detail": {
+                    k: d[k] for k in d if k != "nodes"}}
+    return {"known_finding_classifier": out}
 
 
 class Bound(float):
